@@ -10,7 +10,6 @@ import (
 	"pgregory.net/rapid"
 
 	"github.com/oasisprotocol/oasis-core/go/common/crypto/hash"
-	dbApi "github.com/oasisprotocol/oasis-core/go/storage/mkvs/db/api"
 	"github.com/oasisprotocol/oasis-core/go/storage/mkvs/node"
 
 	"verifharness/ev"
@@ -327,8 +326,6 @@ writer:
 	return mismatches, rejected, prunes, nil
 }
 
-var _ dbApi.NodeDB
-
 const ruleConcurrent = "case = pre-generated history (6-40 versions, 1-3 state candidates per version derived from the previous finalized state root + optional IO root, up to 30 keys, badger or pathbadger, memory or disk) executed by ONE " +
 	"committer/finalizer/pruner goroutine while THREE reader goroutines (race detector on) fully read (HasRoot, scan, Get of every key, 2 SyncGet proofs) finalized versions they have pinned among the 2-4 most recent ones; the pruner " +
 	"never touches a pinned version nor one of the most recent ones. oracle: every read equals the model of that finalized root. A mismatch counts as a violation only if the same history executed sequentially (full read of all " +
@@ -348,9 +345,8 @@ func TestC06Concurrent(t *testing.T) {
 		if err != nil {
 			ev.Infra(t, "open: %v", err)
 		}
-		for _, r := range rejected {
+		for range rejected {
 			rec.Label("not-accepted:" + sc.Backend)
-			_ = r
 		}
 		if len(mism) > 0 {
 			repro := 0
